@@ -12,6 +12,9 @@ use serde_json::json;
 
 use crate::text::*;
 
+/// Number of times `MockProver::verify` panicked while reporting a violated constraint.
+pub static VERIFY_REPORT_PANICS: std::sync::atomic::AtomicUsize = std::sync::atomic::AtomicUsize::new(0);
+
 pub struct Outcome {
     pub op_line: String,
     pub answer: String,
@@ -143,9 +146,16 @@ fn mock(prog: &[Instruction], w: &HashMap<&'static str, IrValue>, inst: Vec<(IrV
         let circuit = MidnightCircuit::new(&rel, Value::known(inst), Value::known(w.clone()), None);
         match MockProver::run(k, &circuit, vec![vec![], pi]) {
             Err(e) => Ok(format!("err:{}", classify_plonk(&e))),
-            Ok(p) => Ok(match p.verify() {
-                Ok(()) => "sat".to_string(),
-                Err(_) => "unsat".to_string(),
+            // `verify` can panic while *describing* a violated gate that queries an unassigned
+            // cell (proofs/src/dev/util.rs `Value::Poison => unreachable!()`): that code is
+            // only reached for a constraint that is not satisfied.
+            Ok(p) => Ok(match catch(|| p.verify()) {
+                Ok(Ok(())) => "sat".to_string(),
+                Ok(Err(_)) => "unsat".to_string(),
+                Err(_) => {
+                    VERIFY_REPORT_PANICS.fetch_add(1, std::sync::atomic::Ordering::Relaxed);
+                    "unsat".to_string()
+                }
             }),
         }
     });
